@@ -68,7 +68,7 @@ let show (o : co) = Printf.sprintf "%d %s" o.t o.text
 let run (hist : string) (impl : string) =
   let hs = Cl_io.read_histories hist in
   let itbl = parse_impl impl in
-  let nh = ref 0 and nev = ref 0 and nout = ref 0 and ndiv = ref 0 and nfail = ref 0 in
+  let nh = ref 0 and nev = ref 0 and nout = ref 0 and ndiv = ref 0 and nfail = ref 0 and nside = ref 0 and nexcl = ref 0 in
   let kinds = Hashtbl.create 64 in
   let bump k = Hashtbl.replace kinds k (1 + (try Hashtbl.find kinds k with Not_found -> 0)) in
   let nontriv = Hashtbl.create 1024 in
@@ -89,23 +89,42 @@ let run (hist : string) (impl : string) =
              mismatch w 0 x;
              if w = "PANIC" then fail "C25" "client-panics" 0 x;
              if w = "LEAK" then fail "C28" "goroutine-leak-or-hang" 0 x) xs;
+         (* the keep-alive wrapper of the client model: it is cl_step itself when KeepAlive = 0 *)
+         let ks = ref ka_init in
          let s = ref cl_init in
-         let cm = ref cmon_init in
+         let cm = ref (cmon_init, cmon_init) in
+         let km = ref (kmon_init, kmon_init) in
+         let excluded = ref false in
          let ievs = Array.of_list ievs in
          List.iteri (fun k (text, ev) ->
              incr nev;
              let is_adv = (match ev with CAdv _ -> true | _ -> false) in
-             let (s', outs) = cl_step hst.ccfg !s ev in
+             let (ks', kouts) = ka_step hst.ccfg !ks ev in
+             let (s', outs) = (ks'.ka_cl, ko_cl kouts) in
+             (* the history leaves the sequential keep-alive model (ClKeepalive.v): nothing after this point
+                is compared or judged *)
+             if ks'.ka_excl && not !excluded then begin excluded := true; incr nexcl end;
+             if !excluded then begin ks := ks'; s := s' end else begin
+             (* the executable side conditions of the theorems (C17, C28): steps that fail them are outside the theorems *)
+             if not (adv_ok hst.ccfg !s ev && cl_fresh !s ev) then incr nside;
              let mouts = canon is_adv (List.map (fun o -> let (t, x) = Cl_io.out_text o in { t; text = x }) outs) in
              let iouts = canon is_adv (if k < Array.length ievs then snd ievs.(k) else []) in
              if k >= Array.length ievs then mismatch "MISSING-EVENT" k ("event not executed by the implementation: " ^ text);
              nout := !nout + List.length iouts;
              List.iter (fun (o : co) -> bump (kind_of o.text)) iouts;
              if iouts <> [] then Hashtbl.replace nontriv (hst.chline ^ text ^ String.concat "|" (List.map show iouts)) ();
-             let (fails, cm') = Chk_cl.step hst.ccfg !s ev (List.map (fun (o : co) -> (o.t, o.text)) iouts) !cm in
+             let (fails, cm') = Chk_cl.step hst.ccfg !s ev (List.map (fun (o : co) -> (o.t, o.text)) iouts) outs !cm in
              cm := cm';
+             (* C33: the keep-alive monitor, on the implementation's outputs and on the model's own *)
+             let ios_of l = List.concat_map (fun (o : co) -> Chk_cl.out_of o.t o.text) l in
+             let (kmi, kfi) = kmon_step hst.ccfg !ks ks' kouts ev (ios_of iouts) (fst !km) in
+             let (kmm, kfm) = kmon_step hst.ccfg !ks ks' kouts ev outs (snd !km) in
+             km := (kmi, kmm);
+             let kfails = List.map (fun (p, c) ->
+                 (Printf.sprintf "C%02d" (int_of_n p),
+                  Printf.sprintf "clause%d%s" (int_of_n c) (if List.mem (p, c) kfm then " model=fails" else " model=holds"))) kfi in
              List.iter (fun (p, c) ->
-                 fail p c k (Printf.sprintf "event=%s impl=[%s]" text (String.concat "; " (List.map show iouts)))) fails;
+                 fail p c k (Printf.sprintf "event=%s impl=[%s]" text (String.concat "; " (List.map show iouts)))) (fails @ kfails);
              let rec cmp ms is =
                match ms, is with
                | [], [] -> ()
@@ -116,10 +135,10 @@ let run (hist : string) (impl : string) =
                | m :: _, [] -> mismatch ("MISSING " ^ kind_of m.text) k (Printf.sprintf "model=[%s] impl=nothing event=%s" (show m) text)
                | [], i :: _ -> mismatch ("EXTRA " ^ kind_of i.text) k (Printf.sprintf "model=nothing impl=[%s] event=%s" (show i) text) in
              cmp mouts iouts;
-             s := s')
+             ks := ks'; s := s' end)
            hst.cevents))
     hs;
   let ks = Hashtbl.fold (fun k v acc -> (k, v) :: acc) kinds [] |> List.sort compare in
-  Printf.printf "STAT evaluations=%d nontrivial=%d histories=%d outputs=%d\n" !nev (Hashtbl.length nontriv) !nh !nout;
+  Printf.printf "STAT evaluations=%d nontrivial=%d histories=%d outputs=%d side_condition_failed_steps=%d outside_keepalive_model=%d\n" !nev (Hashtbl.length nontriv) !nh !nout !nside !nexcl;
   Printf.printf "SUMMARY client histories=%d events=%d outputs=%d diverging=%d failures=%d kinds=%s\n" !nh !nev !nout !ndiv !nfail
     (String.concat "," (List.map (fun (k, v) -> k ^ ":" ^ string_of_int v) ks))
